@@ -61,3 +61,39 @@ Example C07_occupied_hll_nonvacuous :
   (hll_p_min <= 7 <= hll_p_max /\ 0 <= 5 < 2 ^ 64) /\
   count_nz (hllq_reg_list 7 5 h) = 4 /\ length (nodup keyq_eq_dec (Hll.hll_keys_raw h)) = 4%nat.
 Proof. vm_compute. repeat split; try reflexivity; discriminate. Qed.
+
+(* ---------------- source tie ----------------
+   the empty sketch through the code as regenerated from hyperloglog.py's AST on this run
+   (generated/KernelsHllQuery.v): the generated _query body calling the generated _linear_counting (np.log := ln_model)
+   and the generated _estimation_function (`a ** b` := any pow with pow 2.0 (-float64(r)) = 2^-r for r = 0..255; the
+   loop := fold_left), on m = 2^p, threshold[p-7], the generated alpha and the table rows of precision p, returns
+   exactly +0.0 on the all-zero register file *)
+From Sketchnu Require KernelsHllQuery KernelTieHllQuery.
+Theorem C07_empty_source_tie : forall pow : float -> float -> float,
+  (forall r, 0 <= r < 256 -> pow 2%float (- f_of_Z r)%float = pow2neg r) ->
+  forall p, 7 <= p <= 16 ->
+  KernelsHllQuery.gen_query (list Z) (list float) count_nz interp (KernelsHllQuery.gen_linear_counting ln_model)
+            (fun registers m alpha =>
+               KernelsHllQuery.gen_estimation_final alpha m
+                 (fold_left (KernelsHllQuery.gen_estimation_step pow) registers KernelsHllQuery.gen_estimation_init))
+            (zeros (hllq_m p)) (hllq_m p) (hll_threshold p) (KernelsHllQuery.gen_alpha (hllq_m p)) (hll_raw p) (hll_bias p)
+  = 0%float.
+Proof. exact KernelTieHllQuery.tie_hllq_query_empty. Qed.
+Print Assumptions C07_empty_source_tie.
+
+Example C07_empty_source_tie_nonvacuous :
+  (forall r, 0 <= r < 256 -> KernelTieHllQuery.pow_model 2%float (- f_of_Z r)%float = pow2neg r) /\
+  KernelsHllQuery.gen_query (list Z) (list float) count_nz interp (KernelsHllQuery.gen_linear_counting ln_model)
+            (fun registers m alpha =>
+               KernelsHllQuery.gen_estimation_final alpha m
+                 (fold_left (KernelsHllQuery.gen_estimation_step KernelTieHllQuery.pow_model) registers
+                            KernelsHllQuery.gen_estimation_init))
+            (zeros 128) 128 (hll_threshold 7) (KernelsHllQuery.gen_alpha 128) (hll_raw 7) (hll_bias 7) = 0%float /\
+  KernelsHllQuery.gen_query (list Z) (list float) count_nz interp (KernelsHllQuery.gen_linear_counting ln_model)
+            (fun registers m alpha =>
+               KernelsHllQuery.gen_estimation_final alpha m
+                 (fold_left (KernelsHllQuery.gen_estimation_step KernelTieHllQuery.pow_model) registers
+                            KernelsHllQuery.gen_estimation_init))
+            (expand_rle [(1, 1); (0, 127)]) 128 (hll_threshold 7) (KernelsHllQuery.gen_alpha 128) (hll_raw 7) (hll_bias 7)
+  = 0x1.010157588de69p+0%float.
+Proof. split; [exact KernelTieHllQuery.tie_hllq_pow_satisfiable|]. vm_compute. split; reflexivity. Qed.
